@@ -44,8 +44,9 @@ def subkey_of(e):
 
 
 class SubscriptionOracle:
-    def __init__(self, instances, node="N", node_addr=None):
+    def __init__(self, instances, node="N", node_addr=None, rate=1.0):
         self.node = node
+        self.rate = rate  # clock rate of the node (drift fault): its TTL timers run in its own clock
         self.insts = [Inst(i, c) for i, c in enumerate(instances)]
         self.sess = SessionModel()
         self.started = False
@@ -130,7 +131,7 @@ class SubscriptionOracle:
                     self._kill(k3, "stopsubscribe")
                     continue
                 self.epoch_kinds.add("subscribe")
-                d = INF if e.ttl == refdec.TTL_FOREVER else T + e.ttl
+                d = INF if e.ttl == refdec.TTL_FOREVER else T + e.ttl * self.rate
                 if k3 in self.live:
                     old = self.live[k3]
                     if old != INF and old <= T + RES:
@@ -150,7 +151,7 @@ class SubscriptionOracle:
     def on_op(self, idx, T, label):
         _, opidx, f, a = label[:4]
         self.epoch_kinds.add(f)
-        if f == "start" or f == "ann_start":
+        if f in ("start", "ann_start", "restart"):
             if not self.started:
                 self.started = True
                 for i in self.insts:
@@ -324,6 +325,8 @@ class SubscriptionOracle:
     def walk(self, log):
         self.busy = [(e[2] - e[5], e[2]) for e in log if e[4] == "busy"]  # part of the plan: known up front
         for idx, (seq, it, T, actor, kind, data) in enumerate(log):
+            if kind == "crash" and f"{actor}{data}" == self.node:
+                break  # this incarnation is gone: nothing more happens in it, nothing more is owed by it
             if kind == "idle":
                 self.on_idle(T)
             elif actor != self.node and kind != "busy":
